@@ -35,10 +35,12 @@ class _Null:
         return False
 
 
-def NoTracing():
-    if HAVE_CH and _is_tracing():
-        return _ChNoTracing()
-    return _Null()
+if HAVE_CH:
+    NoTracing = _ChNoTracing  # a TraceSwap: restores the previous state, fine when not tracing
+else:  # pragma: no cover
+
+    def NoTracing():
+        return _Null()
 
 
 # --------------------------------------------------------------------------------------------
@@ -54,7 +56,7 @@ def py_ascii(obj):
     """Pure-Python model of builtins.ascii for str arguments (validated against the builtin by
     vf.models.validate_ascii at check start).  Other argument types go to the real builtin."""
     with NoTracing():
-        is_str = isinstance(obj, str) or _is_symbolic_str(obj)
+        is_str = isinstance(obj, (str, _AnySymbolicStr))
     if not is_str:
         return _real_ascii(obj)
     s = obj
@@ -98,25 +100,24 @@ def py_ascii(obj):
     return q + "".join(body) + q
 
 
-def _is_symbolic_str(x):
-    if not HAVE_CH:
-        return False
-    try:
-        from crosshair.libimpl.builtinslib import AnySymbolicStr
+try:
+    from crosshair.libimpl.builtinslib import AnySymbolicStr as _AnySymbolicStr
+except Exception:  # pragma: no cover
 
-        return isinstance(x, AnySymbolicStr)
-    except Exception:  # pragma: no cover
-        return False
+    class _AnySymbolicStr:  # type: ignore
+        pass
+
+
+def _is_symbolic_str(x):
+    return isinstance(x, _AnySymbolicStr)
 
 
 def model_hasattr(obj, name):
     """hasattr for a symbolic attribute name: membership in dir(obj) decided by comparisons (forks)
     instead of realising the name.  Concrete names use the real builtin."""
     with NoTracing():
-        symbolic = _is_symbolic_str(name)
-    if not symbolic:
-        return _real_hasattr(obj, name)
-    with NoTracing():
+        if not isinstance(name, _AnySymbolicStr):
+            return _real_hasattr(obj, name)  # what CrossHair's own patch does for concrete names
         names = list(dir(obj))
     for d in names:
         if name == d:
@@ -127,9 +128,11 @@ def model_hasattr(obj, name):
 _SETUP_DONE = False
 
 
-def setup():
+def setup(models=()):
     """Install the patch overrides.  Must be called from the harness module (i.e. after CrossHair
-    has made its own registrations)."""
+    has made its own registrations).  models: subset of {'ascii', 'hasattr'} -- the pure-Python
+    models are only installed where a harness needs them (C04: ascii on symbolic characters,
+    C16: hasattr with a symbolic name); the `type` wrapper is always installed."""
     global _SETUP_DONE
     if _SETUP_DONE or not HAVE_CH:
         return
@@ -137,16 +140,25 @@ def setup():
     from crosshair import core as chcore
 
     reg = chcore._PATCH_REGISTRATIONS
-    reg[_real_ascii] = py_ascii
-    reg[_real_hasattr] = model_hasattr
+    if "ascii" in models:
+        reg[_real_ascii] = py_ascii
+    if "hasattr" in models:
+        reg[_real_hasattr] = model_hasattr
     ch_type = reg.get(_real_type)
 
     if ch_type is not None:
 
         def type_model(*a, **kw):
-            # CrossHair's own patch takes exactly one positional argument.
-            if len(a) == 1 and not kw:
-                return ch_type(a[0])
+            # CrossHair's own patch takes positional arguments only (no class keywords); the
+            # one-argument form is the only one it models.  Calls to the builtin made from the
+            # registered patch itself are not intercepted again.
+            if not kw:
+                try:
+                    (x,) = a
+                except ValueError:
+                    pass
+                else:
+                    return ch_type(x)
             return _real_type(*a, **kw)
 
         reg[_real_type] = type_model
@@ -230,10 +242,70 @@ _FUNC_TYPES = (
 )
 
 
+_PLAIN_LEAF = (int, bool, float, str, bytes, type(None), complex)
+_EXACT_KIND = {int: "int", str: "str", bool: "bool", float: "float", type(None): "none", tuple: "tuple", list: "list"}
+
+
+def _ptype(o):
+    """(call under NoTracing) the Python type a value pretends to have (symbolic values report the
+    type they model); same rule as crosshair.core.python_type"""
+    to = _real_type(o)
+    if HAVE_CH and _real_hasattr(to, "__ch_pytype__"):
+        try:
+            ot = o.__ch_pytype__()
+            return getattr(ot, "__origin__", ot)
+        except Exception:
+            return to
+    return to
+
+
+def _plain(v, depth=0):
+    """(call under NoTracing) True iff v consists of real builtin scalars/lists/tuples/dicts only,
+    i.e. contains no symbolic value and no object with behaviour"""
+    t = _real_type(v)
+    if t in _PLAIN_LEAF:
+        return True
+    if depth > 8:
+        return False
+    if t is list or t is tuple:
+        for x in v:
+            if not _plain(x, depth + 1):
+                return False
+        return True
+    if t is dict:
+        for k, x in v.items():
+            if not (_plain(k, depth + 1) and _plain(x, depth + 1)):
+                return False
+        return True
+    return False
+
+
 def canon(v, depth=0, seen=None):
     """Structural canonical form in which symbolic leaves stay symbolic.  Never calls str()/repr()
     on data.  bool/float are tagged so that 1, True and 1.0 (equal, but printed differently) are
     told apart."""
+    if depth == 0 and HAVE_CH and _is_tracing():
+        # fast path: fully concrete plain data is canonicalised at native speed
+        with _ChNoTracing():
+            if _plain(v):
+                return canon(v, 0, None)
+    with NoTracing():
+        t = _ptype(v)
+        kind = _EXACT_KIND.get(t)
+    if kind is not None:
+        # exact builtin type: no isinstance chain (every isinstance is an intercepted call)
+        if kind == "int" or kind == "str":
+            return v
+        if kind == "bool":
+            return ("b", v)
+        if kind == "float":
+            return ("f", v)
+        if kind == "none":
+            return ("k", 0)
+        if kind == "tuple" and depth <= 6:
+            return ("T",) + tuple([canon(x, depth + 1, seen) for x in v])
+        if kind == "list" and depth <= 6:
+            return ("L",) + tuple([canon(x, depth + 1, seen) for x in v])
     if v is None or v is Ellipsis or v is NotImplemented:
         return ("k", 0 if v is None else (1 if v is Ellipsis else 2))
     if isinstance(v, bool):
@@ -406,7 +478,7 @@ class Env:
     NS -- NS[i] = number of items the iterable It(i) yields
     every other entry is injected as a global of that name."""
 
-    def __init__(self, inputs, budget=60, real_print=None, extra=None):
+    def __init__(self, inputs, budget=60, real_print=None, extra=None, need=None):
         self.trace = []
         self.budget = budget
         self.pos = 0
@@ -445,6 +517,22 @@ class Env:
         def probe(i, v=None):
             ev(("p", i))
             return v
+
+        def val(v):
+            # C06: make the identity of a binding observable (functions/classes/modules carry the
+            # symbolic value of their binding site)
+            with NoTracing():
+                t = _ptype(v)
+                k = 1 if t is types.FunctionType else (2 if isinstance(v, type) else (3 if t is types.ModuleType else 0))
+            if k == 1:
+                return ("fn", v())
+            if k == 2:
+                return ("cls", v.__dict__.get("v"))
+            if k == 3:
+                return ("mod", v.__name__)
+            return v
+
+        need_all = need is None
 
         class It:
             def __init__(self, i):
@@ -496,7 +584,7 @@ class Env:
             bi = dict(builtins.__dict__)
             g["__builtins__"] = bi
             g["__name__"] = "__main__"
-            helpers = {"log": log, "mark": mark, "cond": cond, "probe": probe, "It": It, "Box": Box, "UV": UV, "UPlain": UPlain}
+            helpers = {"log": log, "mark": mark, "cond": cond, "probe": probe, "val": val, "It": It, "Box": Box, "UV": UV, "UPlain": UPlain}
             helpers["print"] = real_print if real_print is not None else rec_print
             g.update(helpers)
             if extra:
@@ -524,7 +612,55 @@ class Env:
         return names
 
 
-def run_side(code, mode, inputs, observe="trace+globals", budget=60, src_keys=None, real_print=None, extra=None):
+HOOKS = {}
+
+
+def hook_call_f(g, inputs, meta):
+    """C11: call the function bound to `f` with a symbolic call shape.
+    npos positionals taken from A, keyword subset number ks of meta['kwsets'] (values from K),
+    optionally passed through *args / **kwargs.  Result: ('ok', value) | ('TypeError',)."""
+    npos = pick(inputs["npos"], meta["maxpos"] + 1)
+    ks = pick(inputs["ks"], len(meta["kwsets"]))
+    star = pick_bool(inputs["star"])
+    # argument values: distinct concrete ints (binding errors are visible for any distinct values;
+    # symbolic values only multiply solver queries), unless the template supplies symbolic A / K
+    A = inputs.get("A") or [100, 101, 102, 103, 104, 105, 106]
+    K = inputs.get("K") or [200, 201, 202, 203, 204, 205, 206, 207]
+    args = [A[i] for i in range(npos)]
+    with NoTracing():
+        names = list(meta["kwsets"][ks])
+    kwargs = {}
+    for j, n in enumerate(names):
+        kwargs[n] = K[j]
+    f = g["f"]
+    try:
+        if star:
+            r = f(*args, **kwargs)
+        else:
+            r = _direct_call(f, args, kwargs)
+    except TypeError:
+        return ("TypeError",)
+    return ("ok", canon(r))
+
+
+def _direct_call(f, args, kwargs):
+    # explicit positional arity so that CALL (not CALL_FUNCTION_EX) is exercised where possible
+    n = len(args)
+    if n == 0:
+        return f(**kwargs)
+    if n == 1:
+        return f(args[0], **kwargs)
+    if n == 2:
+        return f(args[0], args[1], **kwargs)
+    if n == 3:
+        return f(args[0], args[1], args[2], **kwargs)
+    return f(*args, **kwargs)
+
+
+HOOKS["call_f"] = hook_call_f
+
+
+def run_side(code, mode, inputs, observe="trace+globals", budget=60, src_keys=None, real_print=None, extra=None, hook=None, meta=None):
     """Returns ('ok', trace, globals-record) | ('raised', exception type name, trace)."""
     env = Env(inputs, budget=budget, real_print=real_print, extra=extra)
     g = env.g
@@ -535,7 +671,7 @@ def run_side(code, mode, inputs, observe="trace+globals", budget=60, src_keys=No
             eval(code, g, g)
     except Stop:
         env.trace.append(("STOP",))
-        return ("ok", tuple(env.trace), ("stopped",)), None
+        return ("ok", tuple(env.trace), ("stopped",), None), None
     except Exception as e:  # not BaseException: CrossHair steers paths with BaseExceptions
         with NoTracing():
             tn = _real_type(e).__name__
@@ -545,7 +681,17 @@ def run_side(code, mode, inputs, observe="trace+globals", budget=60, src_keys=No
         rec = tuple((n, canon(g[n])) for n in names)
     else:
         rec = ()
-    return ("ok", tuple(env.trace), rec), names
+    if hook:
+        try:
+            extra_rec = HOOKS[hook](g, inputs, meta)
+        except Stop:
+            extra_rec = ("STOP",)
+        except Exception as e:
+            with NoTracing():
+                tn = _real_type(e).__name__
+            extra_rec = ("hook-raised", tn)
+        return ("ok", tuple(env.trace), rec, extra_rec), names
+    return ("ok", tuple(env.trace), rec, None), names
 
 
 class Obligation:
@@ -556,6 +702,8 @@ class Obligation:
         self.out = d["out"]
         self.observe = d.get("observe", "trace+globals")
         self.budget = d.get("budget", 60)
+        self.hook = d.get("hook")
+        self.meta = d.get("meta")
         self.src_code = compile(self.src, "<source>", "exec")
         self.out_code = compile(self.out, "<converted>", "eval")
 
@@ -570,7 +718,7 @@ def coexec(ob, inputs, real_print=None, detail=False):
     """The co-execution obligation: same inputs, same environment, equal observations.
     A source run that raises is outside the supported fragment for that input."""
     count(ob.oid, "paths")
-    a, names = run_side(ob.src_code, "exec", inputs, ob.observe, ob.budget, None, real_print)
+    a, names = run_side(ob.src_code, "exec", inputs, ob.observe, ob.budget, None, real_print, None, ob.hook, ob.meta)
     if a[0] == "raised":
         if detail:
             return True, a, None
@@ -578,7 +726,7 @@ def coexec(ob, inputs, real_print=None, detail=False):
     count(ob.oid, "reached")
     with NoTracing():
         src_keys = set(names) if names is not None else set()
-    b, _ = run_side(ob.out_code, "eval", inputs, ob.observe, ob.budget, src_keys, real_print)
+    b, _ = run_side(ob.out_code, "eval", inputs, ob.observe, ob.budget, src_keys, real_print, None, ob.hook, ob.meta)
     ok = a == b
     if detail:
         return ok, a, b
